@@ -225,6 +225,10 @@ for _l in _g22.pointwise_layouts():
     _c22h.append(H(_g22.pname(_l), "shadow_crdt", _M22, "shadow_crdt", tiers=Q, covers=1, stubs=_S22, rotate=True, timeout={"quick": 600, "thorough": 1800},
         functions=["Semilattice::merge for LWWMap/GMap", "LWWMap::{insert,remove,get,contains_key}"],
         bounds=f"frame property: two 2-key LWWMap operands (operation kinds per key concrete: base-3 codes {_l[0]}, {_l[1]}), symbolic clocks/values; the merged map agrees at key {_l[2]} with the merge of the single-key restrictions"))
+for _n in ["33_key0", "33_key1", "13_key0", "32_key1", "12_key0", "21_key1"]:
+    _c22h.append(H(f"c22_gmap_pointwise_{_n}", "shadow_crdt", _M22, "shadow_crdt", tiers=Q, covers=1, stubs=_S22,
+        functions=["Semilattice::merge for GMap", "GMap::{insert,get}"],
+        bounds=f"frame property for GMap<u8, Max<u8>>: two 2-key operands with presence layout {_n}, symbolic values; merged map agrees per key with the merge of the single-key restrictions and has exactly the union of the keys"))
 PROPERTIES["C22"] = {
     "harnesses": _c22h,
     "quick_rotate": 6,
